@@ -97,4 +97,16 @@ TSEnd(tb, n) ==
              ELSE Keep(t, ""))
   ELSE IF (Cur(t) = "svg" /\ n = n_svg) \/ (Cur(t) = "mathml" /\ n = n_math) \/ n \in {n_p, n_br} THEN Leave(t)
   ELSE Keep(t, "")
+
+\* ---- what the tag scanner can decide from the tag name alone ---------------------------------
+\* the tag-name hash cannot represent this name (more than 12 characters or a character outside a-z, 1-6)
+Hashable(n) == Len(n) <= 12 /\ \A i \in 1..Len(n) : (n[i] >= 97 /\ n[i] <= 122) \/ (n[i] >= 49 /\ n[i] <= 54)
+\* the simulator cannot answer from the name alone
+NeedsLexeme(sim, n, isEnd) ==
+  IF isEnd THEN Cur(sim) = "html" /\ Len(sim.ns) >= 2 /\ sim.ns[Len(sim.ns) - 1] = "mathml" /\ ~Hashable(n)
+  ELSE /\ n # n_svg /\ n # n_math /\ Cur(sim) # "html" /\ n \notin ForeignExit
+       /\ \/ (Cur(sim) = "svg" /\ n \in SvgHtmlIP) \/ (Cur(sim) = "mathml" /\ n \in MathTextIP)
+          \/ n = n_font
+          \/ (~Hashable(n) /\ Cur(sim) = "mathml")
+
 =============================================================================
